@@ -73,6 +73,13 @@ def check_stop(case):
         out.label("nonfinite_threshold")
         return out
     model, therm = H.build_model(sc)
+    if case.get("earlier_conditions"):
+        # the model carried other conditions before (e.g. a TTP calculation installs and-conditions); clearStoppingConditions() is
+        # the documented way to start over
+        for c in conds[: max(1, len(conds) // 2)]:
+            model.addStoppingCondition(_make_cond(c["q"], c["ineq"], c["value"] * 1.01 + 1e-30, c["phase"], c.get("element")), case["earlier_conditions"])
+        model.clearStoppingConditions()
+        out.label("after_cleared_" + case["earlier_conditions"] + "_conditions")
     objs = []
     for c in conds:
         o = _make_cond(c["q"], c["ineq"], c["value"], c["phase"], c.get("element"))
@@ -241,10 +248,10 @@ def _stop_case(draw):
         sc = draw(scen.toy_multi_scenario(cap=200, max_phases=2))
         conds = draw(st.lists(_cond(), min_size=0, max_size=3))
         conds.append(dict(draw(_cond()), q="composition", elem=draw(st.sampled_from([1, 1, 0])), elem_default=draw(st.booleans())))
-        return {"sc": sc, "conds": conds}
+        return {"sc": sc, "conds": conds, "earlier_conditions": draw(st.sampled_from([None, None, None, "and", "or"]))}
     else:
         sc = draw(scen.toy_binary_scenario(cap=250, max_phases=2, undersat=False))
-    return {"sc": sc, "conds": draw(st.lists(_cond(), min_size=1, max_size=4))}
+    return {"sc": sc, "conds": draw(st.lists(_cond(), min_size=1, max_size=4)), "earlier_conditions": draw(st.sampled_from([None, None, None, "and", "or"]))}
 
 
 @st.composite
